@@ -191,6 +191,16 @@ func runC12(c *core.Ctx) {
 		{"records-before-account", "ok(ssv/ekm.ethKeyManagerSigner.BumpSlashingProtection(p0, *))", "the account is the idempotence marker: it must be saved only after the slashing-protection records exist, or a crash in between leaves a key without protection that replay will not repair"},
 	})
 	c.Min("C12-R3", k, 1, "saveShare call in ekm.AddShare")
+	// the idempotence marker is looked up by the key form it is indexed by
+	if f := fn(c, "C12-R3", ekmAdd); f != nil {
+		a := c.E.Analyze(f)
+		for _, cs := range callsIn(f, "eth2-key-manager/core.Wallet.AccountByPublicKey") {
+			got := a.D.Call(cs.Instr).String()
+			want := "eth2-key-manager/core.Wallet.AccountByPublicKey(p0.wallet, github.com/herumi/bls-eth-go-binary/bls.PublicKey.SerializeToHexStr(github.com/herumi/bls-eth-go-binary/bls.SecretKey.GetPublicKey*(p1)))"
+			c.Decide(ens.Glob(want, got), "C12-R3", "ekm.AddShare|marker looked up by hex(serialised public key)", c.P.Pos(cs.Instr.Pos()), got,
+				"AddShare looks for the existing account by "+got+", not by the form the wallet indexes it by: the lookup never matches, AddShare stops being idempotent and the replay of a block after a crash stores the key share a second time")
+		}
+	}
 	ekmRm := ssv + "ekm.(*ethKeyManagerSigner).RemoveShare"
 	k = 0
 	for _, callee := range []string{"*.RemoveHighestAttestation", "*.RemoveHighestProposal", "*.DeleteAccountByPublicKey"} {
